@@ -194,15 +194,26 @@ CONSTANTS
   MaxOutsiders = %(outs)d
   SigSlack = %(slack)d
   AlignOpts = %(align)d
+  SyncSigsTab = %(svtab)s
+  QuorumPads = %(qpads)s
+  QuorumMinBk = %(qmin)d
+  QuorumMaxBk = %(qmax)d
+  QuorumShort = %(qshort)d
 INVARIANTS %(inv)s
 %(edge)s
 CHECK_DEADLOCK FALSE
 """
 
 
-def hdr_cfg(N, C, sv, md, ml, mask, which, maxbk, maxsigs, inv, edge, outs=1, slack=0, align=0):
+def hdr_cfg(N, C, sv, md, ml, mask, which, maxbk, maxsigs, inv, edge, outs=1, slack=0, align=0,
+            svtab=None, qpads=(), qmin=0, qmax=0, qshort=1):
+    """svtab: {list length L: signatures verified m} as probed from header_sync (None/{} = the design: all L);
+    qpads..qshort: the quorum-mode enumeration of SigHeader (C33), off by default"""
+    tlaset = lambda xs: "{" + ", ".join(xs) + "}"
     return HDR_CFG % dict(N=N, C=C, sv=sv, md=md, ml=ml, mask="TRUE" if mask else "FALSE", which=which, maxbk=maxbk,
-                          maxsigs=maxsigs, inv=inv, edge="ACTION_CONSTRAINT Edge" if edge else "", outs=outs, slack=slack, align=align)
+                          maxsigs=maxsigs, inv=inv, edge="ACTION_CONSTRAINT Edge" if edge else "", outs=outs, slack=slack, align=align,
+                          svtab=tlaset(str(L * 100 + m) for L, m in sorted((svtab or {}).items())),
+                          qpads=tlaset('"%s"' % k for k in qpads), qmin=qmin, qmax=qmax, qshort=qshort)
 
 
 def G(k):
